@@ -2,6 +2,8 @@ package g_query
 
 import (
 	"fmt"
+	"os"
+	"strings"
 	"testing"
 
 	"verifharness/vkit/sk"
@@ -29,14 +31,18 @@ func TestC22Smoke(t *testing.T) {
 		t.Fatal(err)
 	}
 	defer st.Close()
-	for _, q := range []string{
+	qs := []string{}
+	if x := os.Getenv("C22_Q"); x != "" {
+		qs = strings.Split(x, ";")
+	}
+	for _, q := range append(qs, []string{
 		`SELECT f0, f1, fs FROM m0 WHERE time >= -30s AND time < 40s`,
 		`SELECT f0, t0 FROM m0 WHERE time >= -30000000000 AND time < 40000000000 ORDER BY time DESC LIMIT 3 OFFSET 1`,
 		`SELECT count(f0), mean(f1), sum(f0) FROM m0 WHERE time >= -30s AND time < 40s GROUP BY time(10s, 3s), t0 fill(previous)`,
 		`SELECT count(f0), mean(f1) FROM m0 WHERE time >= '1969-12-31T23:59:30Z' AND time < '1970-01-01T00:00:40Z' GROUP BY time(20s)`,
 		`SELECT max(f0) FROM m0 WHERE time >= -30s AND time < 40s GROUP BY t0`,
 		`SELECT derivative(f0, 2s) FROM m0 WHERE time >= -30s AND time < 40s GROUP BY *`,
-	} {
+	}...) {
 		out, err := st.c22Run(q)
 		fmt.Println(q)
 		if err != nil {
